@@ -31,6 +31,7 @@ type Case struct {
 	Retry     bool
 	TwoAddrs  bool
 	DeadFirst bool // the first of the publisher's addresses refuses connections
+	SegScoped bool // explicit syncs give the segment size per call (with a per-call depth limit); the subscriber's own limit is larger
 	Attempts  []fault // 1 or 2 faulty attempts (one fault each), followed by a fault-free attempt
 }
 
@@ -47,6 +48,7 @@ func genCase(t *rapid.T) Case {
 	c.Retry = rapid.IntRange(0, 3).Draw(t, "retry") == 0
 	c.TwoAddrs = rapid.IntRange(0, 3).Draw(t, "twoaddrs") == 0
 	c.DeadFirst = rapid.IntRange(0, 3).Draw(t, "deadfirst") == 0
+	c.SegScoped = c.Seg > 0 && c.Entry == "sync" && rapid.IntRange(0, 2).Draw(t, "segscoped") == 0
 	na := rapid.IntRange(1, 2).Draw(t, "nattempts")
 	for i := 0; i < na; i++ {
 		f := fault{Kind: rapid.SampledFrom(kinds).Draw(t, "kind"), At: rapid.IntRange(-1, c.N-1).Draw(t, "at"), Pos: rapid.IntRange(0, 4096).Draw(t, "pos")}
@@ -116,6 +118,9 @@ func setup(c Case) (*run, error) {
 		p.AddDead()
 	}
 	opts := []dagsync.Option{dagsync.SegmentDepthLimit(c.Seg)}
+	if c.SegScoped {
+		opts = []dagsync.Option{dagsync.SegmentDepthLimit(16)}
+	}
 	if c.Retry {
 		opts = append(opts, dagsync.RetryableHTTPClient(2, 10*time.Millisecond, 100*time.Millisecond))
 	}
@@ -174,7 +179,11 @@ func (r *run) attempt(c Case, ctx context.Context, addr string) (bool, string, s
 		}
 		return true, "", ""
 	}
-	got, err := r.s.S.SyncAdChain(ctx, info)
+	var so []dagsync.SyncOption
+	if c.SegScoped {
+		so = append(so, dagsync.ScopedSegmentDepthLimit(c.Seg), dagsync.ScopedDepthLimit(12))
+	}
+	got, err := r.s.S.SyncAdChain(ctx, info, so...)
 	quiesce()
 	evs := r.s.EventsFrom(ev0)
 	if err != nil {
@@ -438,7 +447,7 @@ func runCase(t *testing.T) func(Case) pbt.Result {
 	}
 }
 
-const rule = "chain of 1..6 ads, optional earlier sync of a prefix, segmented (1, 2) or not, explicit or announce-triggered, plain or discovery transport, optional retryable client, one or two publisher addresses; optionally a first address that refuses connections; 1 or 2 faulty attempts, each with one fault (HTTP 400/403/404/429/500/503, connection reset, truncated body, bit flip, stalled response, caller context cancelled at a request or inside the k-th hook call, FailSync from the hook, at the head request or at any block-request index; or the sync cannot start at all: sender information with only a non-HTTP address, or with no address), then a fault-free attempt; oracle: differential against a fault-free run of the same configuration in a fresh world: a failed attempt leaves latest-sync unchanged, emits no success notification and (announce) exactly one error notification for the announced CID; a successful attempt ends at the head; the fault-free attempt succeeds, latest-sync, store contents and reported blocks equal the fault-free run and it requests exactly the segment blocks not yet stored; every stored block hashes to its CID. Non-trivial: the fault was reached and the attempt failed; distinct by (fault kind, request index, chain length, entry kind, transport, segment size)."
+const rule = "chain of 1..6 ads, optional earlier sync of a prefix, segmented (1, 2) or not, explicit or announce-triggered, plain or discovery transport, optional retryable client, one or two publisher addresses; optionally a first address that refuses connections, optionally the segment size given per call (ScopedSegmentDepthLimit with a per-call depth limit, under a larger subscriber-wide limit); 1 or 2 faulty attempts, each with one fault (HTTP 400/403/404/429/500/503, connection reset, truncated body, bit flip, stalled response, caller context cancelled at a request or inside the k-th hook call, FailSync from the hook, at the head request or at any block-request index; or the sync cannot start at all: sender information with only a non-HTTP address, or with no address), then a fault-free attempt; oracle: differential against a fault-free run of the same configuration in a fresh world: a failed attempt leaves latest-sync unchanged, emits no success notification and (announce) exactly one error notification for the announced CID; a successful attempt ends at the head; the fault-free attempt succeeds, latest-sync, store contents and reported blocks equal the fault-free run and it requests exactly the segment blocks not yet stored; every stored block hashes to its CID. Non-trivial: the fault was reached and the attempt failed; distinct by (fault kind, request index, chain length, entry kind, transport, segment size)."
 
 func TestC04_Random(t *testing.T) {
 	pbt.Run(t, pbt.Config{Prop: "C04", Unit: "TestC04_Random", Rule: rule, TrackCurrent: true}, genCase, runCase(t))
